@@ -181,7 +181,17 @@ pub fn run(ctx: &Ctx, rec: &mut Rec) {
                         // isqrt with den = 0. That family is identified by the *input and hint*, not by the
                         // wrapping gadget, so that the known finding is one signature and anything else
                         // (another input class, another hint class, den != 0) stays a distinct violation.
-                        let sig = if class.split('|').any(|c| c == "s=q-1") && desc.contains("den=0:hint=(true,y^2=1)") && !desc.contains('+') {
+                        // A joint substitution belongs to the same family when every substituted site is either the
+                        // den = 0 site under the hint (true, y^2 = 1) or a den != 0 site left at a value the honest
+                        // prover could have used (the honest root or its negative): the second component changes nothing.
+                        let fld = &ctx.c.f;
+                        let known_combo = subs.len() > 1
+                            && subs.iter().any(|s| seen[s.idx].0 == b(0))
+                            && subs.iter().all(|s| {
+                                let (den, hflag, hy) = &seen[s.idx];
+                                if den == &b(0) { s.flag && fld.sq(&s.y) == b(1) } else { s.flag == *hflag && (&s.y == hy || s.y == fld.neg(hy)) }
+                            });
+                        let sig = if class.split('|').any(|c| c == "s=q-1") && ((desc.contains("den=0:hint=(true,y^2=1)") && !desc.contains('+')) || known_combo) {
                             format!("{P}:satisfied-but-native-rejects:input-encoding=s=q-1:isqrt:den=0:hint=(true,y^2=1)")
                         } else {
                             format!("{P}:satisfied-but-native-rejects:site={}:input={}:{}", g.name, class, desc)
